@@ -2,7 +2,7 @@
    Only ExtrOcamlBasic is used (bool, option, unit, list, prod, sumbool
    mapped to OCaml's; andb/orb inlined); Z, N, positive, nat stay the
    extracted inductive datatypes. *)
-From Strcase Require Import Base Utf8 Fold Spec FoldTables Impl Impl2 Impl3 Kernels.
+From Strcase Require Import Base Utf8 Fold Spec FoldTables Impl Impl2 Impl3 Impl4 Impl5 Kernels.
 From Coq Require Import Extraction ExtrOcamlBasic.
 Extraction Language OCaml.
 
@@ -68,6 +68,25 @@ Definition i_count_str := Impl3.Count i_idx Str.
 Definition i_count_byt := Impl3.Count i_idx Byt.
 Definition i_cut_str := Impl3.Cut i_idx Str.
 Definition i_cut_byt := Impl3.Cut i_idx Byt.
+Definition cutover_amd64 (n : Z) : Z := (n + 16) / 8.
+Definition cutover_arm64 (n : Z) : Z := 4 + Z.shiftr n 4.
+(* three configurations: amd64 (NativeIndex), arm64 cut-over, portable (no native Index) *)
+Definition i_index_rune_case_a := Impl4.indexRuneCase true cutover_amd64.
+Definition i_index_rune_case_b := Impl4.indexRuneCase true cutover_arm64.
+Definition i_index_rune_case_c := Impl4.indexRuneCase false cutover_amd64.
+Definition i_index_byte_pair_a := Impl5.indexByte true cutover_amd64.
+Definition i_index_byte_pair_c := Impl5.indexByte false cutover_amd64.
+Definition i_IndexByte_a := Impl5.IndexByte true cutover_amd64.
+Definition i_IndexByte_c := Impl5.IndexByte false cutover_amd64.
+Definition i_IndexByteASCII := Impl5.IndexByteASCII.
+Definition i_LastIndexByte := Impl5.LastIndexByte.
+Definition i_index_rune2_a := Impl5.indexRune2 true cutover_amd64.
+Definition i_index_rune_pair_a := Impl5.indexRune true cutover_amd64 (fold_map T121) (to_upper_lower T121).
+Definition i_index_rune_pair_c := Impl5.indexRune false cutover_arm64 (fold_map T121) (to_upper_lower T121).
+Definition i_IndexRune_a := Impl5.IndexRune true cutover_amd64 (fold_map T121) (to_upper_lower T121).
+Definition i_IndexRune_c := Impl5.IndexRune false cutover_arm64 (fold_map T121) (to_upper_lower T121).
+Definition i_last_index_rune_str := Impl5.lastIndexRune (fold_map T121) (to_upper_lower T121) Str.
+Definition i_last_index_rune_byt := Impl5.lastIndexRune (fold_map T121) (to_upper_lower T121) Byt.
 Definition i_contains_kelvin := Impl.contains_kelvin.
 Definition i_index_byte_generic := index_byte_generic.
 Definition i_count_generic := count_generic.
@@ -77,7 +96,10 @@ Definition i_index_non_ascii_generic := index_non_ascii_generic.
 Extraction "model.ml"
   i_compare_str i_compare_byt i_has_prefix_unicode_str i_has_prefix_unicode_byt
   i_trim_prefix_str i_trim_prefix_byt i_cut_prefix_str i_cut_prefix_byt
-  i_has_suffix_unicode_str i_has_suffix_unicode_byt i_trim_suffix_str i_trim_suffix_byt i_cut_suffix_str i_cut_suffix_byt i_count_str i_count_byt i_cut_str i_cut_byt i_contains_kelvin i_index_byte_generic i_count_generic i_count_simd i_index_non_ascii_generic
+  i_has_suffix_unicode_str i_has_suffix_unicode_byt i_trim_suffix_str i_trim_suffix_byt i_cut_suffix_str i_cut_suffix_byt i_count_str i_count_byt i_cut_str i_cut_byt
+  i_index_rune_case_a i_index_rune_case_b i_index_rune_case_c i_index_byte_pair_a i_index_byte_pair_c
+  i_IndexByte_a i_IndexByte_c i_IndexByteASCII i_LastIndexByte i_index_rune2_a i_index_rune_pair_a i_index_rune_pair_c
+  i_IndexRune_a i_IndexRune_c i_last_index_rune_str i_last_index_rune_byt i_contains_kelvin i_index_byte_generic i_count_generic i_count_simd i_index_non_ascii_generic
   m_case_fold m_fold_map m_fold_map_excl m_to_upper_lower m_lower_str m_lower_byt
   m_decode m_decode_last m_rune_len m_valid_rune m_encode m_rune_count m_valid_utf8
   s_compare s_equal_fold s_index s_contains s_last_index s_has_prefix s_has_suffix
